@@ -16,6 +16,8 @@ type mbox struct {
 	fs     float64 // font size
 	a, d   float64 // extent of the box's strut above / below the baseline (half-leading included)
 	ls, rs float64 // start / end margin+border+padding
+	va     string  // vertical-align: "" (baseline), "top", "bottom"
+	root   int     // root of the aligned subtree the box belongs to: the nearest ancestor-or-self with va top/bottom, 0 = the line's root inline box
 }
 
 type mitem struct {
@@ -26,6 +28,7 @@ type mitem struct {
 	box int     // innermost inline box ('c','a','n'); the box itself ('o','x')
 	tn  int     // text node index ('c')
 	sp  bool    // space character
+	va  string  // 'a': vertical-align "" | "top" | "bottom"
 }
 
 // Frag is one positioned piece of a line: a text fragment (one per text node and line), an atomic
@@ -36,6 +39,11 @@ type Frag struct {
 	X, W float64 // "t": start and advance; "a": margin box; "s": margin box of the fragment
 	FS   float64
 	H    float64 // "a": margin-box height
+	// expected position, below the line top, of the baseline ("t") / of the bottom margin edge ("a"):
+	// a range, because CSS 2.1 §10.8.1 leaves the baseline of the line undefined when a top/bottom
+	// aligned subtree is taller than the rest of the line (BLo = BHi otherwise)
+	BLo, BHi float64
+	sub      int // model only: aligned subtree (box id, 0 = root; -1 / -2: the atomic itself, top / bottom)
 }
 
 // Line is one expected line box.
@@ -50,6 +58,14 @@ type Line struct {
 	Justified bool
 	Hang      float64 // width of preserved spaces hanging at the line end (pre-wrap)
 	Start     float64 // text-indent applied to this line
+	// vertical-align top/bottom (CSS 2.1 §10.8.1): aligned subtrees on the line, those nested inside
+	// a top/bottom aligned inline box, whether one of them is taller than the baseline-aligned rest
+	// (it decides the line height) and whether only a nested one does
+	NVA, NVANested          int
+	VADecides, VANestedOnly bool
+	// finding D21: a top/bottom aligned inline box holding another aligned subtree is not where its
+	// provisional placement put it (see notes)
+	d21 bool
 }
 
 type model struct {
@@ -129,7 +145,7 @@ func newModel(p *Para) (*model, error) {
 			case KBr:
 				raw = append(raw, mitem{k: 'n', box: box, tn: -1})
 			case KIB:
-				raw = append(raw, mitem{k: 'a', w: float64(n.W + 2*n.M), h: float64(n.H), box: box})
+				raw = append(raw, mitem{k: 'a', w: float64(n.W + 2*n.M), h: float64(n.H), box: box, va: n.VA})
 			case KSpan:
 				fs := m.boxes[box].fs
 				if n.FS != 0 {
@@ -143,7 +159,11 @@ func newModel(p *Para) (*model, error) {
 					Ls = L
 				}
 				id := len(m.boxes)
-				m.boxes = append(m.boxes, mbox{parent: box, fs: fs, a: 0.8*fs + (Ls-fs)/2, d: 0.2*fs + (Ls-fs)/2, ls: n.ls(), rs: n.rs()})
+				root := m.boxes[box].root
+				if n.VA != "" {
+					root = id
+				}
+				m.boxes = append(m.boxes, mbox{parent: box, fs: fs, a: 0.8*fs + (Ls-fs)/2, d: 0.2*fs + (Ls-fs)/2, ls: n.ls(), rs: n.rs(), va: n.VA, root: root})
 				raw = append(raw, mitem{k: 'o', w: n.ls(), box: id})
 				if err := walk(n.C, id); err != nil {
 					return err
@@ -460,6 +480,9 @@ func (m *model) Layout(W float64) (lines []Line, guard string) {
 			guards["D20"] = true
 		}
 		ln := m.finish(pos, end, open, start, W, y, forced || end >= len(m.items))
+		if ln.d21 {
+			guards["D21"] = true
+		}
 		lines = append(lines, ln)
 		y += ln.H
 		// boxes open at the start of the next line
@@ -478,7 +501,7 @@ func (m *model) Layout(W float64) (lines []Line, guard string) {
 	if len(lines) > 0 {
 		lines[len(lines)-1].Last = true
 	}
-	for _, g := range []string{"D2", "D10", "D14", "D16", "D19", "D20"} {
+	for _, g := range []string{"D2", "D10", "D14", "D16", "D19", "D20", "D21"} {
 		if guards[g] && !lifted(g) {
 			return lines, g
 		}
@@ -736,16 +759,30 @@ func (m *model) finish(p, q int, open []int, start, W, y float64, last bool) Lin
 	}
 	// positions
 	x := start + off
-	maxA, maxD := m.boxes[0].a, m.boxes[0].d
+	// aligned subtrees (CSS 2.1 §10.8.1): the root inline box with everything that is not inside a
+	// top/bottom aligned box, and one per top/bottom aligned inline box / atomic inline present on the
+	// line; inside a subtree everything sits on the subtree's baseline
+	type ext struct{ a, d float64 }
+	sub := map[int]*ext{0: {m.boxes[0].a, m.boxes[0].d}}
+	var subOrder []int
+	var vaAtoms []float64   // heights of the top/bottom aligned atomic inlines
+	var vaAtomRoots []int   // ... and the aligned subtree of the box holding them (0: not nested)
 	seen := map[int]bool{}
 	touch := func(b int) {
 		for ; b > 0 && !seen[b]; b = m.boxes[b].parent {
 			seen[b] = true
-			if m.boxes[b].a > maxA {
-				maxA = m.boxes[b].a
+			r := m.boxes[b].root
+			e := sub[r]
+			if e == nil {
+				e = &ext{}
+				sub[r] = e
+				subOrder = append(subOrder, r)
 			}
-			if m.boxes[b].d > maxD {
-				maxD = m.boxes[b].d
+			if m.boxes[b].a > e.a {
+				e.a = m.boxes[b].a
+			}
+			if m.boxes[b].d > e.d {
+				e.d = m.boxes[b].d
 			}
 		}
 	}
@@ -782,11 +819,22 @@ func (m *model) finish(p, q int, open []int, start, W, y float64, last bool) Lin
 		case 'a':
 			touch(it.box)
 			mark()
-			ln.Frags = append(ln.Frags, Frag{Kind: "a", X: x, W: it.w, H: it.h})
-			x += it.w
-			if it.h > maxA {
-				maxA = it.h
+			fr := Frag{Kind: "a", X: x, W: it.w, H: it.h, sub: m.boxes[it.box].root}
+			switch it.va {
+			case "top":
+				fr.sub = -1
+			case "bottom":
+				fr.sub = -2
 			}
+			if it.va != "" {
+				vaAtoms = append(vaAtoms, it.h)
+				vaAtomRoots = append(vaAtomRoots, m.boxes[it.box].root)
+			} else if e := sub[fr.sub]; it.h > e.a {
+				// the bottom margin edge of an empty inline-block sits on the baseline
+				e.a = it.h
+			}
+			ln.Frags = append(ln.Frags, fr)
+			x += it.w
 			curTN = -1
 		case 'c':
 			touch(it.box)
@@ -800,7 +848,7 @@ func (m *model) finish(p, q int, open []int, start, W, y float64, last bool) Lin
 				f.Text += string(it.r)
 				f.W += w
 			} else {
-				ln.Frags = append(ln.Frags, Frag{Kind: "t", Text: string(it.r), X: x, W: w, FS: it.w})
+				ln.Frags = append(ln.Frags, Frag{Kind: "t", Text: string(it.r), X: x, W: w, FS: it.w, sub: m.boxes[it.box].root})
 				curTN = it.tn
 			}
 			x += w
@@ -814,7 +862,75 @@ func (m *model) finish(p, q int, open []int, start, W, y float64, last bool) Lin
 			ln.Spans[i].Text = "empty"
 		}
 	}
-	ln.H = maxA + maxD
-	ln.Baseline = y + maxA
+	// line height: the baseline-aligned rest, or the tallest top/bottom aligned subtree
+	A0, D0 := sub[0].a, sub[0].d
+	H0 := A0 + D0
+	H, Htop := H0, H0 // Htop: without the subtrees nested inside a top/bottom aligned inline box
+	for _, r := range subOrder {
+		h := sub[r].a + sub[r].d
+		ln.NVA++
+		nested := m.boxes[m.boxes[r].parent].root != 0
+		if nested {
+			ln.NVANested++
+		} else if h > Htop {
+			Htop = h
+		}
+		if h > H {
+			H = h
+		}
+	}
+	for i, h := range vaAtoms {
+		ln.NVA++
+		if vaAtomRoots[i] != 0 {
+			ln.NVANested++
+		} else if h > Htop {
+			Htop = h
+		}
+		if h > H {
+			H = h
+		}
+	}
+	ln.VADecides = H > H0+eps
+	ln.VANestedOnly = H > Htop+eps
+	ln.H = H
+	ln.Baseline = y + A0
+	for i := range ln.Frags {
+		f := &ln.Frags[i]
+		switch {
+		case f.sub == -1:
+			f.BLo, f.BHi = f.H, f.H
+		case f.sub == -2:
+			f.BLo, f.BHi = H, H
+		case f.sub == 0:
+			// the baseline of the line is defined only when nothing is taller than the rest
+			f.BLo, f.BHi = A0, H-D0
+		case m.boxes[f.sub].va == "top":
+			f.BLo, f.BHi = sub[f.sub].a, sub[f.sub].a
+		default:
+			f.BLo, f.BHi = H-sub[f.sub].d, H-sub[f.sub].d
+		}
+	}
+	// finding D21: webrender keeps the baseline A0 below the line top, places every aligned subtree
+	// with its baseline there first and then moves it; an aligned subtree nested inside a top/bottom
+	// aligned inline box is moved twice (with the outer box and on its own account), so it is
+	// misplaced whenever the outer box moves at all
+	for _, r := range subOrder {
+		moved := sub[r].a - A0
+		if m.boxes[r].va == "bottom" {
+			moved = (H - A0) - sub[r].d
+		}
+		if moved > eps || moved < -eps {
+			for _, r2 := range subOrder {
+				if r2 != r && m.boxes[m.boxes[r2].parent].root == r {
+					ln.d21 = true
+				}
+			}
+			for _, r2 := range vaAtomRoots {
+				if r2 == r {
+					ln.d21 = true
+				}
+			}
+		}
+	}
 	return ln
 }
